@@ -8,6 +8,7 @@
  *        loads a topology the way the named tool configures it (flags and
  *        type filters copied from the tools' main()), prints "load rc=<0|-1>"
  *        and the canonical dump (harness/hwv_dump.h)
+ *   config <line>                a configuration line (hwv_load.h: "filter <type-number|all|io|cache|icache> <kind>") for the next topo
  *   restrict <flags> <set in hwloc format>   hwloc_topology_restrict (what the tools' --restrict does after the load):
  *        prints "restrict rc=<rc>" and the new dump
  *   xmlexport <flags> <file>     hwloc_topology_export_xmlbuffer -> bytes written to <file>
@@ -39,6 +40,10 @@ void usage(const char *n, FILE *f) { (void)n; (void)f; }
 
 static hwloc_topology_t topo;
 static int loaded;
+/* "config <line>": configuration lines of harness/hwv_load.h (filter <type|all|io|cache|icache> <kind>, ...) applied
+ * by the next "topo" command after the tool's own defaults, as the tools apply their command-line filters */
+static char *pending[64];
+static int npending;
 
 static void done(void) { puts("."); fflush(stdout); }
 
@@ -67,6 +72,7 @@ static void cmd_topo(char *args)
     flags = HWLOC_TOPOLOGY_FLAG_IMPORT_SUPPORT;
   }
   hwloc_topology_set_flags(topo, flags);
+  { int i; for (i = 0; i < npending; i++) { hwv_config_line(topo, pending[i]); free(pending[i]); } npending = 0; }
   if (!strcmp(kind, "synthetic")) err = hwloc_topology_set_synthetic(topo, args);
   else {
     err = hwloc_topology_set_xml(topo, args);
@@ -98,6 +104,7 @@ int main(void)
   while ((len = getline(&line, &cap, stdin)) > 0) {
     char *p = line;
     while (len && (p[len-1] == '\n' || p[len-1] == '\r')) p[--len] = 0;
+    if (!strncmp(p, "config ", 7)) { if (npending < 64) pending[npending++] = strdup(p + 7); puts("config ok"); done(); continue; }
     if (!strncmp(p, "topo ", 5)) { cmd_topo(p + 5); done(); continue; }
     if (!loaded) { puts("notopo"); done(); continue; }
     if (!strncmp(p, "restrict ", 9)) {
